@@ -52,14 +52,14 @@ ASSUMPTIONS = [
     'pitch = arcsin(.) used by any Euler extraction (observed <= 2.4e-14 for |cos pitch| > 0.01, <= 2.9e-13 on the rows nearer the pole)',
     'gyro integration: reference integrator = exact exponential map with the rate held over each sample interval; '
     'ang_vel is 2 vec(q_{k-1}^* q_k)/dt, so by bi-invariance + triangle inequality the attitude error after k steps is '
-    '<= sum_{j<=k} (theta_j - 2 sin(theta_j/2)); verdict threshold 1.01 * that + 1e-9 rad (observed excess over the rigorous bound <= 6e-15 rad)',
+    '<= sum_{j<=k} (theta_j - 2 sin(theta_j/2)), theta_j the step angle as written along the angle history ang_pos (random trajectories) or along the given rows (given trajectories); verdict threshold 1.01 * that + 1e-9 rad (observed excess over the rigorous bound <= 6e-15 rad)',
     'not demanded: a particular value or unit of the bias (only reported = applied), the value of ang_vel[0], that a '
     'requested non-zero mag_noise is honoured (only that the reported attribute is the applied one; replacements are counted '
     'in coverage class mag_noise:request-replaced)',
 ]
 REQUIRED_CLASSES = ['given:repaired QuaternionArray object', 'given:near-pole', 'given:near-unit rows', 'in_degrees:other carrier', 'mode:random', 'mode:given', 'gyr_noise=0', 'acc_noise=0', 'mag_noise=0', 'gyr_noise>0', 'acc_noise>0',
                     'mag_noise>0', 'in_degrees', 'radians', 'normalized_mag', 'raw_mag', 'refs:default', 'refs:explicit',
-                    'mag_noise:request-honoured', 'N=10', 'given:piecewise', 'given:through-pole', 'integration:tight-bound']
+                    'mag_noise:request-honoured', 'N=10', 'given:piecewise', 'given:through-pole', 'integration:tight-bound', 'history:generate-again']
 
 TOL = 1e-12
 DEG2RAD, RAD2DEG = rs.DEG2RAD, rs.RAD2DEG
@@ -68,7 +68,7 @@ DEG2RAD, RAD2DEG = rs.DEG2RAD, rs.RAD2DEG
 GYR = {'0': 0.0, 'def': None, 'big': 50.0}
 ACC = {'0': 0.0, 'def': None, 'big': 5.0}
 MAG = {'0': 0.0, 'def': None, 'mid': 100.0, 'big': 2.5e5}
-SPANS = {'def': None, 'half': (-0.5 * math.pi, 0.5 * math.pi), 'small': (0.0, 0.3), 'list': [-0.1, 0.1], 'quarter': (0.0, 0.5 * math.pi)}
+SPANS = {'wide': (0.0, 2.0 * math.pi), 'turns': (-2.0 * math.pi, 2.0 * math.pi), 'def': None, 'half': (-0.5 * math.pi, 0.5 * math.pi), 'small': (0.0, 0.3), 'list': [-0.1, 0.1], 'quarter': (0.0, 0.5 * math.pi)}
 YAWS = {'-': None, '0': 0.0, '45': 45.0, '-120': -120.0}
 REFS = {'def': None,
         'A': (np.array([0.3, -0.2, 9.7]), np.array([21000.0, 1200.0, 43000.0])),
@@ -356,7 +356,10 @@ def _judge(ctx, key, s, rec, N, freq, gl, al, ml, deg, nmag, refs, given=None):
                key, {'residual': e, 'gyr_noise': sig_g, 'biases_gyroscopes': bias, 'row1': resid[1]}, 'residual 0', TOL * sc)
 
     W = (gyr - bias - cands[jg] * sig_g * V) / U          # rad/s, what an integrator is fed
-    theta = rs.step_angles(Q)
+    # step angles as written along the path the object describes: for a random trajectory that path is the angle history ang_pos (half-angle
+    # formulas, continuous in the angles - a sign jump between two rows of `quaternions` is not a turn of the sensor); for a given
+    # trajectory it is the given rows themselves
+    theta = rs.step_angles(rs.rpy2q_rows(ap) if given is None else Q)
     cum = np.concatenate([[0.0], np.cumsum(rs.chord_defect(theta))])
     Qi = rs.integrate_body_rates(Q[0], W, 1.0 / freq)
     err = rs.attitude_angle_rows(Qi, Q)
@@ -397,6 +400,21 @@ def _case(ctx, key, build, N, freq, combo, deg, nmag, refs, given=None):
     facts = _judge(ctx, key, s, rec, N, freq, gl, al, ml, deg, nmag, refs, given)
     if combo == ('def', 'def', 'def'):
         _repeat(ctx, key, s, build)
+    if facts is not None and (combo in (('0', '0', '0'), ('def', 'def', 'def')) or given is not None):
+        # history: the public generate() called again on the same object (a new noise realisation) - the object again satisfies every clause
+        import ahrs.utils.sensors as S
+        rec2 = _RecGen(1000 + (len(key) % 7))
+        old = S.GENERATOR
+        S.GENERATOR = rec2
+        try:
+            s.generate(s.rotations)
+        except Exception as ex:
+            ctx.expect(False, 'generate() called again on the same object', key, f'{type(ex).__name__}: {ex}', 'new samples')
+            return facts
+        finally:
+            S.GENERATOR = old
+        _judge(ctx, key + ' [after a second generate()]', s, rec2, N, freq, gl, al, ml, deg, nmag, refs, given)
+        ctx.cls('history:generate-again')
     return facts
 
 
@@ -524,6 +542,7 @@ def run(ctx):
     for N in Ns:
         cfgs = [(100.0, sp, yw, refs) for sp in spans for yw in yaws for refs in ('def', 'A') if thorough or refs == 'def' or yw == '-']
         cfgs.append((100.0, 'def', '-', 'U'))
+        cfgs += [(100.0, 'wide', '-', 'def'), (100.0, 'turns', '-', 'def')]        # angle histories that pass +-180 degrees
         if thorough:
             cfgs += [(f, 'def', '-', refs) for f in (25.0, 1000.0) for refs in ('def', 'A')]
         for f, sp, yw, refs in cfgs:
